@@ -16,6 +16,7 @@ type Suite struct {
 	NewMachine func() Machine
 	Gen        func(g *Gen, tier string) *Case
 	Monitors   []Monitor
+	OMonitors  []OMonitor
 	OpName     func(Tok) string
 	Nontrivial func(*RunResult) bool
 	Rule       string
@@ -78,7 +79,7 @@ func main() {
 		g := &Gen{R: rand.New(rand.NewSource(*seed*1000003 + int64(si)))}
 		m := su.NewMachine()
 		st := NewStats()
-		ck := &Checker{M: m, Model: md, Monitors: su.Monitors, Known: knownSigs, Stats: st, OpName: su.OpName, MaxFind: 6, NoModel: su.NoModel, SigPrefix: su.Name + ":"}
+		ck := &Checker{M: m, Model: md, Monitors: su.Monitors, OMonitors: su.OMonitors, Known: knownSigs, Stats: st, OpName: su.OpName, MaxFind: 6, NoModel: su.NoModel, SigPrefix: su.Name + ":"}
 		n := su.Quick
 		if *tier == "thorough" {
 			n = su.Thorough
